@@ -611,6 +611,23 @@ def case_stack(rec, specs):
     except Exception as e:
         rec.violation(f'second-serialize:{key_kind}', f'stack {specs}: second serialisation raised {exc_name(e)}: {e}', 'case_stack', args)
         return
+    # the same through the other public serialisers of a value list: VmStackList.serialize(list) is the stack's cell without the depth
+    # field - it too leaves the caller's list as it is and gives the same cell every time
+    try:
+        from pytoniq_core.tlb.vm_stack import VmStackList
+        rec.trans(2)
+        l1 = VmStackList.serialize(vals)
+        if deep_snapshot(vals) != before or len(vals) != len(specs):
+            rec.violation('consumed:list', f'stack {specs}: VmStackList.serialize changed the caller\'s list ({len(vals)} of {len(specs)} values left)', 'case_stack', args)
+            return
+        l2 = VmStackList.serialize(vals)
+        inner = c1.refs[0].hash if specs and c1.refs else None
+        if l1.hash != l2.hash or (specs and (l1.bits.to01() != c1.bits.to01()[24:] or [r.hash for r in l1.refs] != [r.hash for r in c1.refs])):
+            rec.violation('list-serialize', f'stack {specs}: VmStackList.serialize is not repeatable / differs from the list inside VmStack.serialize', 'case_stack', args)
+            return
+    except Exception as e:
+        rec.violation('list-serialize', f'stack {specs}: VmStackList.serialize raised {exc_name(e)}: {e}', 'case_stack', args)
+        return
     # independent reading of the schema
     forms = []
     try:
